@@ -463,6 +463,6 @@ MANIFEST_ENTRY = {
     "text": ("Every ordered pair of a 270-type universe (exhaustive), thousands of random deep near-miss pairs, and every evaluation "
              "the compiler itself makes while real subroutine calls and inner method calls are constructed, are judged against "
              "structural equality of normalised ARC-4 layouts and against algosdk encodings of sample values; constructions with "
-             "differently shaped types must raise. Exhaustive over the stated universe, exploration beyond it."),
+             "differently shaped types must raise. Exhaustive over the stated universe, exploration beyond it. Assignments are executed too: every ordered near-miss pair of the universe goes through set(value), set(computed value), store_into, array-element and tuple-member store_into, and whatever PyTeal accepts must leave in the target exactly the source value's encoding under the target type."),
     "note": "Trusted: the normalisation (byte=uint8, address=uint8[32], string=uint8[], names dropped) as the definition of 'same ARC-4 encoding'; algosdk.abi.",
 }
